@@ -228,6 +228,40 @@ def run_func(ctx, case):
         out3 = np.array(G.mk_pot(spec).calculate(np.array(r)), dtype=float)
         if not np.array_equal(out, out3, equal_nan=True):
             ctx.violation('potential:not-repeatable', '%s: identically constructed object differs' % case['pot'])
+        # distances held in a 2-D table (rows of pair distances, a distance matrix) or as a (n,1,1) column like Domain.long_r: elementwise
+        if out.ndim == 1 and len(r) >= 4 and r.dtype == float and case['seed'] % 3 == 0:
+            ctx.hook('multidimensional_r')
+            n2 = len(r) // 2 * 2
+            for shp in ((2, n2 // 2), (n2 // 2, 2), (len(r), 1, 1)):
+                rr = np.array(r[:n2] if shp[0] * (shp[1] if len(shp) > 1 else 1) == n2 and len(shp) == 2 else r).reshape(shp)
+                try:
+                    om = np.array(G.mk_pot(spec).calculate(np.array(rr)), dtype=float)
+                except Exception:   # noqa - only a silently wrong table is judged
+                    continue
+                want = (out[:n2] if rr.size == n2 and len(shp) == 2 else out).reshape(shp)
+                if om.shape != want.shape or not np.array_equal(om, want, equal_nan=True):
+                    ctx.violation('potential:not-elementwise:multidimensional-r', '%s: evaluation on r of shape %s differs from the element-by-element values' % (case['pot'], shp))
+                    break
+        # a parameter re-assigned on an existing object (a sweep that re-uses one potential): whichever value the object goes by, the
+        # result must be ONE documented curve (the one for the old or the one for the new value), not a mixture
+        if spec['t'] in ('LJ', 'WCA', 'HCLJ', 'EXP') and out.ndim == 1 and r.dtype == float and case['seed'] % 4 == 1:
+            ctx.hook('parameter_reassigned_on_object')
+            U3 = G.mk_pot(spec)
+            U3.calculate(np.array(r))
+            new_eps = spec['eps'] * 0.5
+            U3.epsilon = new_eps
+            _S['on'] = False               # the per-call contract reads the parameters off the object; here either value is acceptable
+            try:
+                o3 = np.array(U3.calculate(np.array(r)), dtype=float)
+            finally:
+                _S['on'] = True
+            olds = np.array(R.u_ref(spec, r, spec.get('sigma')), dtype=float)
+            news = np.array(R.u_ref(dict(spec, eps=new_eps), r, spec.get('sigma')), dtype=float)
+            away = R.branch_mask(spec, r, spec.get('sigma'))
+            ok_old, _ = agree(o3[away], olds[away], rtol=1e-10)
+            ok_new, _ = agree(o3[away], news[away], rtol=1e-10)
+            if not (ok_old or ok_new):
+                ctx.violation('potential:inconsistent-after-parameter-reassignment', '%s: after epsilon was re-assigned on the object (%r -> %r) the result is neither the documented curve for the old nor for the new value' % (case['pot'], spec['eps'], new_eps))
         # an array returned earlier survives later calls on the same object
         raw = U.calculate(np.array(r))
         keep = np.array(raw, copy=True)
